@@ -138,6 +138,7 @@ static void clockMode(char* line) {
         memset(hx_mem.data + 0x100, 0xAA, 8);
         hx_snapshot(); hx_allow(0x100, 8);
         if (realMode && id < 4) realGet(native[id], &before);
+        errno = k % 2 ? ESPIPE : ENOENT;   /* stale errno of some earlier, unrelated host call */
         e = isRes ? NS(ns, clock_res_get)(I, id, 0x100) : NS(ns, clock_time_get)(I, id, precisions[k], 0x100);
         if (realMode && id < 4) realGet(native[id], &after);
         got = hx_u64(0x100);
@@ -180,8 +181,10 @@ static void randomMode(char* line) {
     memset(kept, 1, len + 1);
     for (k = 0; k < 5 && e == 0; k++) {
         unsigned first = entropyCounter;
-        hx_guest_alloc(len + 2 * OFF, fills[k]);
+        /* placement "end": the buffer ends exactly at the last byte of guest memory (for length 0: starts at the size) */
+        hx_guest_alloc(!strcmp(f[3], "end") ? len + OFF : len + 2 * OFF, fills[k]);
         hx_snapshot(); hx_allow(OFF, len);
+        errno = ENOTDIR;   /* no result may depend on what an earlier host call left in errno */
         e = NS(ns, random_get)(I, OFF, len);
         if (e != 0) break;
         if (hx_stray(&at)) { bad("stray-write", "length %u: guest byte %u outside the buffer changed", len, at); break; }
